@@ -140,4 +140,28 @@ PROPS = {
         explanation="Lean: soundness of the lock certificate checker + regenerated per-function obligations (every path releases what it takes); harness: API-level bounds under an adversarial broker",
         assumptions=["scheduling slack 1.5 s on top of each bound in the measured part"],
     ),
+    'C03': dict(
+        lean_modules=['Iscp.Props.C03'],
+        gen=[],
+        harnesses=[dict(name='down', pkg='./corr/down', topic='down', n_quick=100, n_thorough=800, thorough_seeds=3, timeout=900)],
+        trusted_base=COMMON_TB + [
+            "the scripted in-memory broker (go/broker); hook H1",
+            "modelled, not verified: the forwarding goroutines between the wire connection and the stream (order-preserving single-goroutine hops, each modelled as 'arrive'), the ack flush timer (a flush is an event; how many acks carry a batch is not compared, only their content, order and id continuity)",
+        ],
+        rule="lock-step cases on a real Conn/Downstream: random histories of chunks (1-3 upstreams in full form or under the alias the client announced, data ids in full or alias form, pre-registered ids, aliases never announced, empty groups), batched reads, metadata from two source nodes with read+ack, transport kills with plain and conflict-then-success resume, Close; compared per op with the model: returned chunks (sequence, upstream, resolved groups with points), errors, merged ack content; distinct = (qos, pre-registration, op signature); non-trivial = at least two read batches (sampled)",
+        explanation="Lean theorems over all histories of the downstream model (in order once, resolution, unknown alias is an error, tables stable, metadata order) + lock-step differential correspondence",
+        assumptions=["the consumer keeps up with the documented 1024-item buffering (explicit hypothesis keepsUp)", "cross-node metadata order is unspecified (per node only)"],
+    ),
+    'C04': dict(
+        lean_modules=['Iscp.Props.C04'],
+        gen=[],
+        harnesses=[dict(name='down', pkg='./corr/down', topic='down', n_quick=100, n_thorough=800, thorough_seeds=3, timeout=900)],
+        trusted_base=COMMON_TB + [
+            "the scripted in-memory broker (go/broker); hook H1",
+            "modelled, not verified: the forwarding goroutines between the wire connection and the stream (order-preserving single-goroutine hops, each modelled as 'arrive'), the ack flush timer (a flush is an event; how many acks carry a batch is not compared, only their content, order and id continuity)",
+        ],
+        rule="same harness as C03; additional oracles on the implementation: every chunk returned by ReadDataPoints is acknowledged exactly once with its upstream stream id and sequence number, ack ids increase by one from 1 across resumes, no upstream / data id receives two aliases and no alias names two things, the last ack precedes the close request",
+        explanation="Lean theorems (ack exactly once, ack ids, alias injectivity and single announcement, close flushes first, resume keeps state) + lock-step differential correspondence",
+        assumptions=["fewer than 2^32-1 aliases of each kind per stream"],
+    ),
 }
